@@ -90,7 +90,8 @@ def rand_cols(r, wild=False):
             return "."
         if wild and x < 0.3:
             return r.choice(["", "007", "+5", " 5", "1_0", "x", "-0", "1e3", "1__0", "_5", "5_", "1_0_0"])
-        return str(r.choice([1, 5, 100, 131072, 2 ** 29, 2 ** 29 - 1, r.randrange(1, 10 ** 7), -3, 0]))
+        return str(r.choice([1, 5, 100, 131072, 2 ** 29, 2 ** 29 - 1, r.randrange(1, 10 ** 7), -3, 0,
+                             2 ** 53 + 1, 2 ** 63 - 1, 9007199254740993]))
     seqid = r.choice(["chr1", "2L", "scaffold_1", "chré", "X", ".", "a b" if wild else "Y", ""if wild else "I"])
     return [seqid, r.choice(["src", ".", "FlyBase", "a_b"]), r.choice(["gene", "mRNA", "exon", "CDS", "."]),
             coord(), coord(), r.choice([".", "0.5", "12", "1e-5"]), r.choice(["+", "-", ".", "?"]),
